@@ -336,7 +336,16 @@ func narrowTableUncached(c *core.Ctx, fn *ssa.Function, maxLen int) (rs rows, ru
 									panic(&absint.Undecided{Msg: "IsTypeImplement on something that is not a candidate's type"})
 								}
 								// which interface is asked about: the witness `new(I)`
-								if cell, isCell := a[1].(*absint.Cell); isCell && cell.Elem != nil && !types.Identical(cell.Elem, wp) {
+								witness := types.Type(nil)
+								if cell, isCell := a[1].(*absint.Cell); isCell && cell.Elem != nil {
+									witness = cell.Elem
+								} else if gt := goTypeOf(a[1]); gt != nil {
+									if pt, isPtr := gt.Underlying().(*types.Pointer); isPtr {
+										witness = pt.Elem()
+									}
+								}
+								if witness != nil && !types.Identical(witness, wp) {
+									cell := struct{ Elem types.Type }{witness}
 									// any other capability of the candidate's type: both answers are possible
 									key := "cap:" + cell.Elem.String()
 									if mt.Attr[key] == nil {
